@@ -376,9 +376,17 @@ def run_definitions(case):
     times, frame, arrays, rf_obj, rf_arr, bm_obj, bm_arr = build(case)
     ndaily = tag_base(res, case, times, arrays)
     q = case.get("q")
-    qs = sorted({0.025, 0.05, 0.02} | ({q} if q is not None else set()))
     res.tag("q:default" if q is None else "q:dyadic" if Fraction(q).denominator <= 64 else "q:other")
+    measure(res, frame, times, arrays, rf_obj, rf_arr, bm_obj, bm_arr, q, ndaily,
+            tearsheet=bool(case.get("tearsheet")), track=bool(case.get("track")))
+    return res
 
+
+def measure(res, frame, times, arrays, rf_obj, rf_arr, bm_obj, bm_arr, q, ndaily, stage="", tearsheet=False,
+            track=False):
+    """Call every metric on `frame` and compare it with the reference computed from `arrays` (the values the
+    frame holds now), `rf_arr` / `bm_arr`. `stage` prefixes the violation texts."""
+    qs = sorted({0.025, 0.05, 0.02} | ({q} if q is not None else set()))
     # reference values
     if rf_arr is not None:
         _, rlv = ref_collapse(times, rf_arr)
@@ -400,16 +408,16 @@ def run_definitions(case):
         except _Shape as exc:
             res.fail("%s returned an object of unexpected shape (%s)" % (what, exc))
             return
-        check_metric(res, what, got, [r[key] for r in refs], REL)
+        check_metric(res, stage + what, got, [r[key] for r in refs], REL)
         if want_labels is not None and labels is not None:
             if [label_date(l) for l in labels] != want_labels:
-                res.fail("%s is labelled %s..., expected the dates %s..." % (what, labels[:3], want_labels[:3]))
+                res.fail("%s%s is labelled %s..., expected the dates %s..." % (stage, what, labels[:3], want_labels[:3]))
 
     try:
         frame.validate()
     except Exception as exc:  # noqa
-        res.fail("valid level data rejected: %s: %s" % (type(exc).__name__, exc))
-        return res
+        res.fail("%svalid level data rejected: %s: %s" % (stage, type(exc).__name__, exc))
+        return
 
     compare("level()", call("level"), "level", dates)
     compare("simple_returns()", call("simple_returns"), "simple_returns", dates[1:])
@@ -419,26 +427,26 @@ def run_definitions(case):
     compare("drawdown()", dd, "drawdown", dates)
     ddv = np.asarray(dd.to_numpy(), dtype=float)
     if not np.all((ddv > -1.0) & (ddv <= 0.0)):
-        res.fail("drawdown outside (-1, 0]: min %.17g max %.17g" % (ddv.min(), ddv.max()))
+        res.fail("%sdrawdown outside (-1, 0]: min %.17g max %.17g" % (stage, ddv.min(), ddv.max()))
     for j, a in enumerate(arrays):
         lv = refs[j]["level"].v
         col = ddv if ddv.ndim == 1 else ddv[:, j]
         if len(col) == len(lv):
             high = lv >= np.maximum.accumulate(lv)
             if np.any(col[high] != 0.0):
-                res.fail("drawdown is not 0 at a running high (column %d): %s" % (j, fmt(col[high][col[high] != 0.0])))
+                res.fail("%sdrawdown is not 0 at a running high (column %d): %s" % (stage, j, fmt(col[high][col[high] != 0.0])))
     for name in ("nr_calendar_days", "nr_observations", "nr_years"):
         v = call(name)
         for r in refs:
             if not same(v, r[name].v, REL, r[name].extra):
-                res.fail("%s() = %s, definition gives %s" % (name, v, r[name].v))
+                res.fail("%s%s() = %s, definition gives %s" % (stage, name, v, r[name].v))
                 break
     for name in ("cagr", "overall_return", "volatility", "max_drawdown", "downside_volatility",
                  "upside_volatility", "martin_risk"):
         compare(name + "()", call(name), name)
     mdd = call("max_drawdown")
     if not same_vec(np.atleast_1d(np.asarray(mdd, dtype=float)), np.atleast_1d(ddv.min(axis=0)), 0.0):
-        res.fail("max_drawdown() != min(drawdown())")
+        res.fail(stage + "max_drawdown() != min(drawdown())")
     if q is None:
         compare("value_at_risk()", call("value_at_risk"), ("value_at_risk", 0.025))
         compare("expected_shortfall()", call("expected_shortfall"), ("expected_shortfall", 0.025))
@@ -470,13 +478,12 @@ def run_definitions(case):
                 raise
             compare(name + "(benchmark)", result, key, dates[1:] if name == "excess_returns" else None)
 
-    if case.get("tearsheet") and not (rf_obj is not None and rf_arr is None):
+    if tearsheet and not (rf_obj is not None and rf_arr is None):
         # (a numeric risk-free other than 0 is turned into a synthetic 252-steps-a-year series by the tearsheet)
         check_tearsheet(res, frame, refs, rf_obj if rf_arr is not None else None, bm_obj, ndaily)
-    if case.get("track"):
+    if track:
         # TrackRecord.tearsheet() measures the net liquidation values with risk_free = 0 and no benchmark
         check_track_record(res, times, arrays[0], [ref_metrics(times, arrays[0], qs)])
-    return res
 
 
 TEARSHEET_ROWS = [
@@ -636,6 +643,130 @@ def run_scale(case):
                     continue
                 raise
             compare(name + "(benchmark)", a, b, key)
+    return res
+
+
+# =========================================================================================== PART derived
+# Metrics are functions of the values an object holds at the moment of the call. Here an object is measured,
+# then a second object is obtained from it with pandas operations (or the same object is edited in place) and
+# measured against the reference of ITS OWN values; finally a benchmark / risk-free obtained from measured
+# objects is used. Anything a metric leaves behind on the object or hands over to derived objects shows up here.
+
+def cycle(pattern, n):
+    return np.array([float(pattern[i % len(pattern)]) for i in range(n)], dtype=float)
+
+
+def first_column(obj):
+    return obj if isinstance(obj, pd.Series) else obj.iloc[:, 0]
+
+
+def edit_rows(obj, arrays, rows, vals):
+    """In-place `iloc` assignment of a few rows (new value = old value x factor); mirrors it on the plain arrays."""
+    n = len(obj)
+    arrays = [np.array(a, dtype=float) for a in arrays]
+    for k, (r, v) in enumerate(zip(rows, vals)):
+        p = r % n
+        if isinstance(obj, pd.DataFrame):
+            j = (r // 7 + k) % obj.shape[1]
+            new = float(arrays[j][p] * v)
+            obj.iloc[p, j] = new
+            arrays[j][p] = new
+        else:
+            new = float(arrays[0][p] * v)
+            obj.iloc[p] = new
+            arrays[0][p] = new
+    return arrays
+
+
+def run_derived(case):
+    res = Result()
+    times, frame, arrays, rf_obj, rf_arr, bm_obj, bm_arr = build(case)
+    ndaily = tag_base(res, case, times, arrays)
+    arrays = [np.asarray(a, dtype=float) for a in arrays]
+    d = case["derive"]
+    op = d["op"]
+    q = case.get("q")
+    n = len(times)
+
+    # 1. the original object (and its risk-free / benchmark) is measured
+    measure(res, frame, times, arrays, rf_obj, rf_arr, bm_obj, bm_arr, q, ndaily, stage="[original] ")
+    if res.violations:
+        return res
+
+    # 2. a second object obtained from the first one
+    times2, rf2_obj, rf2_arr, bm2_obj, bm2_arr = times, rf_obj, rf_arr, bm_obj, bm_arr
+    c = float(d["c"])
+    if op == "slice":
+        lo, hi = d["lo"] % n, n - (d["hi"] % n)
+        if hi - lo < 2 or (times[hi - 1] - times[lo]).days < 1:
+            op = "mul"
+    if op == "mul":
+        obj2, arrays2 = frame * c, [a * c for a in arrays]
+    elif op == "mulm":
+        obj2, arrays2 = frame.mul(c), [a * c for a in arrays]
+    elif op == "div":
+        obj2, arrays2 = frame / c, [a / c for a in arrays]
+    elif op == "wiggle":
+        w = cycle(d["wiggle"], n)
+        ws = pd.Series(w, index=frame.index)
+        obj2 = frame * ws if isinstance(frame, pd.Series) else frame.mul(ws, axis=0)
+        arrays2 = [a * w for a in arrays]
+    elif op == "copy_assign":
+        obj2 = frame.copy()
+        arrays2 = edit_rows(obj2, arrays, d["rows"], d["vals"])
+    elif op == "inplace":
+        obj2 = frame
+        arrays2 = edit_rows(obj2, arrays, d["rows"], d["vals"])
+    elif op == "slice":
+        obj2, arrays2, times2 = frame.iloc[lo:hi], [a[lo:hi] for a in arrays], times[lo:hi]
+        if rf_arr is not None:
+            rf2_obj, rf2_arr = rf_obj.iloc[lo:hi], rf_arr[lo:hi]
+        if bm_arr is not None:
+            bm2_obj, bm2_arr = bm_obj.iloc[lo:hi], bm_arr[lo:hi]
+    else:
+        raise ValueError(op)
+    res.tag("op:" + op)
+    dates2, _ = ref_collapse(times2, arrays2[0])
+    ndaily2 = len(dates2)
+    collapsed = ndaily2 < len(times2)
+    if collapsed:
+        res.tag("op:%s/intraday-collapsed" % op)
+    got = np.asarray(obj2.to_numpy(), dtype=float)
+    want = arrays2[0] if got.ndim == 1 else np.column_stack(arrays2)
+    if got.shape != want.shape or not np.array_equal(got, want):
+        raise AssertionError("harness: the derived object does not hold the expected values")
+    stage = "[%s after measuring the original] " % {
+        "mul": "obj * %r" % c, "mulm": "obj.mul(%r)" % c, "div": "obj / %r" % c, "wiggle": "obj * series",
+        "copy_assign": "obj.copy() with rows reassigned", "inplace": "same object, rows reassigned in place",
+        "slice": "obj.iloc[a:b]"}[op]
+    measure(res, obj2, times2, arrays2, rf2_obj, rf2_arr, bm2_obj, bm2_arr, q, ndaily2, stage=stage)
+    if res.violations:
+        return res
+
+    # 3. a benchmark / risk-free obtained from objects that have been measured
+    rel = d["relative"]
+    if rel == "none":
+        return res
+    n2 = len(times2)
+    bm3_obj, bm3_arr, rf3_obj, rf3_arr = bm2_obj, bm2_arr, rf2_obj, rf2_arr
+    if rel in ("bm-from-self", "both"):
+        wb = cycle(d["bm_wiggle"], n2)
+        bm3_obj = (first_column(obj2) * pd.Series(wb, index=obj2.index)).rename("BM")
+        bm3_arr = arrays2[0] * wb
+        res.tag("benchmark:measured-series*wiggle" + ("/intraday-collapsed" if collapsed else ""))
+    elif rel == "bm-edited" and bm2_arr is not None:
+        bm3_obj = bm2_obj
+        bm3_arr = edit_rows(bm3_obj, [bm2_arr], d["rows"], d["vals"])[0]
+        res.tag("benchmark:edited-in-place" + ("/intraday-collapsed" if collapsed else ""))
+    if rel in ("rf-from-rf", "both") and rf2_arr is not None:
+        wr = cycle(d["rf_wiggle"], n2)
+        rf3_obj = rf2_obj.mul(pd.Series(wr, index=rf2_obj.index), axis=0)
+        rf3_arr = np.asarray(rf2_arr, dtype=float) * wr
+        res.tag("risk-free:measured-series*wiggle" + ("/intraday-collapsed" if collapsed else ""))
+    if bm3_obj is bm2_obj and rf3_obj is rf2_obj and rel != "bm-edited":
+        return res
+    measure(res, obj2, times2, arrays2, rf3_obj, rf3_arr, bm3_obj, bm3_arr, q, ndaily2,
+            stage="[benchmark / risk-free obtained from measured objects] ")
     return res
 
 
@@ -823,8 +954,8 @@ def time_offsets(draw, kind, n):
 
 
 @st.composite
-def base_cases(draw, tier="quick", need_rf=False, need_bm=False, allow_float_rf=True):
-    kind = draw(st.sampled_from(KINDS))
+def base_cases(draw, tier="quick", need_rf=False, need_bm=False, allow_float_rf=True, kinds=KINDS):
+    kind = draw(st.sampled_from(kinds))
     nmax = 400
     n = draw(st.one_of(st.integers(2, 6), st.integers(2, 40), st.integers(2, 40), st.integers(2, 40),
                        st.integers(3, 12), st.integers(41, nmax)))
@@ -889,6 +1020,27 @@ def scale_cases(draw, tier="quick"):
     return case
 
 
+OPS = ["mul", "mulm", "div", "wiggle", "wiggle", "copy_assign", "copy_assign", "inplace", "inplace", "slice"]
+wiggles = st.lists(st.integers(-200, 200).map(lambda k: 1.0 + k / 1000.0), min_size=1, max_size=8)
+
+
+@st.composite
+def derived_cases(draw, tier="quick"):
+    case = draw(base_cases(tier, kinds=["intra", "intra", "intra", "intra", "D", "B", "irr"]))
+    case["int"] = False          # rows are reassigned with floats
+    case["derive"] = {
+        "op": draw(st.sampled_from(OPS)),
+        "c": draw(st.sampled_from([0.5, 2.0, 3.0, 0.1, 1.5, 1000.0, 0.37])),
+        "wiggle": draw(wiggles), "bm_wiggle": draw(wiggles),
+        "rf_wiggle": draw(st.lists(st.integers(-50, 50).map(lambda k: 1.0 + k / 1e5), min_size=1, max_size=4)),
+        "rows": draw(st.lists(st.integers(0, 2799), min_size=1, max_size=4)),
+        "vals": draw(st.lists(st.sampled_from([0.5, 0.8, 0.9, 0.99, 1.01, 1.1, 1.25, 2.0]), min_size=4, max_size=4)),
+        "lo": draw(st.integers(0, 5)), "hi": draw(st.integers(0, 5)),
+        "relative": draw(st.sampled_from(["none", "bm-from-self", "bm-from-self", "bm-edited", "rf-from-rf", "both"])),
+    }
+    return case
+
+
 DEFECTS = ["nan", "nonpos", "dup", "swap", "nat", "range", "str", "intidx"]
 
 
@@ -921,6 +1073,7 @@ FINDING_PROBES = {"D11": probe_tracking_error_two_levels}
 PARTS = [
     Part("definitions", strategy=lambda tier: definition_cases(tier), run=run_definitions, quick=1500, thorough=30000),
     Part("scale", strategy=lambda tier: scale_cases(tier), run=run_scale, quick=700, thorough=16000),
+    Part("derived", strategy=lambda tier: derived_cases(tier), run=run_derived, quick=400, thorough=10000),
     Part("reject", strategy=lambda tier: reject_cases(tier), run=run_reject, quick=700, thorough=16000),
 ]
 
